@@ -319,6 +319,15 @@ fn finding_matches(f: &Finding, v: &Violation) -> bool {
 /// worker process: items arrive as JSON lines on stdin, one result line per item on stdout
 pub fn run_worker(check: &dyn Check, tier: Tier) {
     crate::world::install_panic_hook_quiet();
+    if std::env::var("VERIF_DEBUG").is_err() {
+        // the engine prints task errors with eprintln!; keep the check output readable
+        unsafe {
+            let fd = libc::open(c"/dev/null".as_ptr(), libc::O_WRONLY);
+            if fd >= 0 {
+                libc::dup2(fd, 2);
+            }
+        }
+    }
     let stdin = std::io::stdin();
     let stdout = std::io::stdout();
     for line in stdin.lock().lines().map_while(Result::ok) {
